@@ -419,6 +419,8 @@ type c29Obs struct {
 	how       []int
 	connected c29FP
 	tcpErr    bool
+	elapsed   time.Duration // how long Dial took
+	listening bool          // the listener was still open when Dial returned
 	err       string
 	nohello   int
 }
@@ -621,6 +623,10 @@ func runC29(c *vh.Ctx, concurrent bool) {
 			roller.HelloIDs = append(roller.HelloIDs, pool[x].id)
 		}
 		roller.TcpDialTimeout = 2 * time.Second
+		if stallSc && sc%10 == 1 {
+			// a TCP dial timeout shorter than the handshake timeout: a black-holed handshake outlasts it
+			roller.TcpDialTimeout = 250 * time.Millisecond
+		}
 		roller.TlsHandshakeTimeout = timeout
 		preset := c29None
 		if sameFamily || stallSc || c.Rng.Intn(3) == 0 { // a remembered working id, possibly not among the configured ones
@@ -646,7 +652,12 @@ func runC29(c *vh.Ctx, concurrent bool) {
 			var conn *tls.UConn
 			var err error
 			returned := make(chan struct{})
-			go func() { defer close(returned); conn, err = roller.Dial("tcp", ln.Addr().String(), name) }()
+			started := time.Now()
+			go func() {
+				defer close(returned)
+				conn, err = roller.Dial("tcp", ln.Addr().String(), name)
+				o.elapsed = time.Since(started)
+			}()
 			select {
 			case <-returned:
 			case <-time.After(time.Duration(nids+1)*(timeout+roller.TcpDialTimeout) + 20*time.Second):
@@ -676,6 +687,7 @@ func runC29(c *vh.Ctx, concurrent bool) {
 			}
 			srv.mu.Lock()
 			ats := append([]*c29Attempt{}, srv.okd[name]...)
+			o.listening = !(srv.maxConn > 0 && srv.nconn >= srv.maxConn)
 			o.nohello = srv.nohello
 			srv.mu.Unlock()
 			// what "the handshake succeeds" means is decided by the server side of each attempt
@@ -752,6 +764,23 @@ func runC29(c *vh.Ctx, concurrent bool) {
 					c.Fail("exhaust", "Dial gave up without trying every id once", in, got, want)
 				}
 			}
+			// "returns the TCP dial error immediately" - when a TCP dial fails. While the listener is open a dial to it can
+			// only fail by using up its whole TcpDialTimeout, and every handshake that timed out before it used up its whole
+			// TlsHandshakeTimeout; a dial error that comes back sooner was not produced by a failing TCP dial.
+			if sequential && o.tcpErr && o.listening {
+				need := roller.TcpDialTimeout
+				for _, h := range o.how {
+					if h == c29Silent || h == c29Late {
+						need += timeout
+					}
+				}
+				if o.elapsed < need {
+					got["elapsed_ms"] = o.elapsed.Milliseconds()
+					c.Fail("spurious-tcp-error", "Dial returned a TCP dial error although the server was listening and no dial can have waited for TcpDialTimeout",
+						map[string]any{"ids": fmt.Sprint(idFPs), "working": o.wb.String(), "tcp_dial_timeout_ms": roller.TcpDialTimeout.Milliseconds(), "handshake_timeout_ms": timeout.Milliseconds()},
+						got, fmt.Sprintf("a connection or a handshake error; a genuine dial timeout takes at least %d ms", need.Milliseconds()))
+				}
+			}
 			if sequential && o.connected == c29None && o.wa != o.wb {
 				c.Fail("result", "a Dial that returned no connection changed the working id", in, got, o.wb.String())
 			}
@@ -787,12 +816,13 @@ func runC29(c *vh.Ctx, concurrent bool) {
 					}
 					tr[i] = fmt.Sprintf("(%s, %s)", f.coq(), beh)
 				}
-				c.Case("dial", fmt.Sprintf("CDial %s %s %d %s %s %s %s", fpList(idFPs), c29Opt(o.wb), timeout.Milliseconds(), vh.List(tr),
-					c29Opt(o.connected), vh.Bool(o.tcpErr), c29Opt(o.wa)),
+				c.Case("dial", fmt.Sprintf("CDial %s %s %d %s %s %s %s %d %s %d", fpList(idFPs), c29Opt(o.wb), timeout.Milliseconds(), vh.List(tr),
+					c29Opt(o.connected), vh.Bool(o.tcpErr), c29Opt(o.wa), roller.TcpDialTimeout.Milliseconds(), vh.Bool(o.listening), o.elapsed.Milliseconds()),
 					fmt.Sprint(idFPs, o.wb, o.trace, o.how, o.connected, o.tcpErr), len(o.trace) >= 2,
 					map[string]any{"ids": fmt.Sprint(idFPs), "working_before": o.wb.String(), "timeout_ms": timeout.Milliseconds(),
 						"trace": fmt.Sprint(o.trace), "how": o.how, "connected": o.connected.String(), "tcp_err": o.tcpErr,
-						"working_after": o.wa.String(), "connections_without_hello": o.nohello})
+						"working_after": o.wa.String(), "connections_without_hello": o.nohello,
+						"tcp_dial_timeout_ms": roller.TcpDialTimeout.Milliseconds(), "listening": o.listening, "elapsed_ms": o.elapsed.Milliseconds()})
 				if c.Rng.Intn(4) == 0 { // the server changes its mind between Dials
 					srv.mu.Lock()
 					f := pool[sel[c.Rng.Intn(nids)]].fp
@@ -828,7 +858,7 @@ func runC29(c *vh.Ctx, concurrent bool) {
 			}
 			for _, o := range obs {
 				judge(o, known, c29None, false)
-				c.Case("cdial", "CDial [] None 0 [] None false None", o.name, len(o.trace) >= 2,
+				c.Case("cdial", "CDial [] None 0 [] None false None 0 false 0", o.name, len(o.trace) >= 2,
 					map[string]any{"ids": fmt.Sprint(idFPs), "trace": fmt.Sprint(o.trace), "connected": o.connected.String()})
 			}
 		}
@@ -851,7 +881,7 @@ func runC29(c *vh.Ctx, concurrent bool) {
 		if err == nil || !errors.As(err, &oe) || oe.Op != "dial" {
 			c.Fail("tcp-error", "Dial to a closed port did not return the TCP dial error", addr, fmt.Sprint(err), "dial error")
 		}
-		c.Case("dial", fmt.Sprintf("CDial %s None 3000 [] None true None", fpList([]c29FP{pool[0].fp, pool[1].fp})), "closed-port", false,
+		c.Case("dial", fmt.Sprintf("CDial %s None 3000 [] None true None 1000 false 0", fpList([]c29FP{pool[0].fp, pool[1].fp})), "closed-port", false,
 			map[string]any{"closed_port": true, "err": fmt.Sprint(err)})
 	}
 }
